@@ -19,6 +19,14 @@
 //     path requires det == 0 or max |exact inverse entry| >= max/4;  det != 0 and max |entry| <= max/8 => no
 //     form throws;  det == 0 => the determinant-based path throws;  Gauss-Jordan must throw where a zero pivot
 //     is provable in floating point (zero row, zero column, two identical rows).
+//   * the "must fire" direction (audit2 C07 S1): det != 0 and an exact cofactor/determinant quotient formed by the
+//     determinant-based path >= 2^(emax+1), i.e. beyond every finite number of the type ("the matrix cannot be
+//     inverted", ImathMatrix.h on singExc; C06: "a determinant so small that dividing the cofactors by it would
+//     overflow")  =>  the unchecked form reports failure (identity) and the checked form throws.  Alphabet `overflow`:
+//     M = diag(2^r) L diag(2^c), L an integer lattice matrix, one row / one column / one row and one column (of the
+//     block, for the affine family) scaled by 2^-b with b on both sides of the thresholds max/4 and 2^(emax+1); all
+//     entries, cofactors and the determinant stay exactly representable (every term of a determinant of such a
+//     matrix carries the same power of two).  Gauss-Jordan has no overflow guard and is not run on that alphabet.
 #include "c07_common.hpp"
 #include "c08_alpha.hpp" // c08::Site / C0X_FAIL
 #include <ImathMatrix.h>
@@ -64,18 +72,20 @@ struct Info
     bool        singular   = false; // exact determinant == 0 (only meaningful if exact)
     long double maxq       = 0;     // max |exact inverse entry| (if exact && !singular)
     bool        gj_provable = false; // zero row / zero column / two identical rows
+    long double maxq_div   = -1;    // max |exact quotient| among the quotients the determinant-based path forms (affine: the block); < 0: same as maxq
 };
 
 struct ITally
 {
     long long states = 0, transitions = 0;
     long long c_singular_exact = 0, c_nonsingular_exact = 0, c_affine = 0, c_general = 0, c_threw_det = 0, c_threw_gj = 0, c_gj_provable = 0,
-              c_unchecked_identity_far = 0, c_guard_quotient_ge_quarter_max = 0, c_inexact = 0;
+              c_unchecked_identity_far = 0, c_guard_quotient_ge_quarter_max = 0, c_inexact = 0, c_must_fire = 0, c_must_fire_affine = 0, c_below_quarter_tiny_det = 0;
     void add (const ITally& o)
     {
         states += o.states; transitions += o.transitions; c_singular_exact += o.c_singular_exact; c_nonsingular_exact += o.c_nonsingular_exact;
         c_affine += o.c_affine; c_general += o.c_general; c_threw_det += o.c_threw_det; c_threw_gj += o.c_threw_gj; c_gj_provable += o.c_gj_provable;
         c_unchecked_identity_far += o.c_unchecked_identity_far; c_guard_quotient_ge_quarter_max += o.c_guard_quotient_ge_quarter_max; c_inexact += o.c_inexact;
+        c_must_fire += o.c_must_fire; c_must_fire_affine += o.c_must_fire_affine; c_below_quarter_tiny_det += o.c_below_quarter_tiny_det;
     }
 };
 
@@ -84,6 +94,7 @@ template <class T, int N> struct InvChecker
     typedef typename Mat<T, N>::type M;
     const std::string                pfx = std::string ("Matrix") + char ('0' + N) + char ('0' + N) + "<" + tname<T> () + ">::";
     const long double                TM  = (long double) tmax<T> ();
+    const long double                HI  = ldexpl (1, std::numeric_limits<T>::max_exponent); // 2^(emax+1): beyond every finite T
 
     static bool affine (const M& m)
     {
@@ -161,6 +172,15 @@ template <class T, int N> struct InvChecker
             }
             if (!info.singular && info.maxq <= TM / 8 && th != NONE)
                 C0X_FAIL (f + "(true).throws-on-well-conditioned", (show_mat<T, M, N> (m)), Msg () << "no exception: max |exact inverse entry| = " << info.maxq, thrown_name (th));
+            // must fire: a quotient of the determinant-based path exceeds every finite number of the type
+            const long double qd = info.maxq_div >= 0 ? info.maxq_div : info.maxq;
+            if (det_based && !info.singular && qd >= HI)
+            {
+                if (!U_id)
+                    C0X_FAIL (f + "().overflowing-quotient-not-reported-singular", (show_mat<T, M, N> (m)), Msg () << "identity: exact |cofactor/determinant| reaches " << qd, (show_mat<T, M, N> (U)));
+                if (th == NONE)
+                    C0X_FAIL (f + "(true).no-throw-on-overflowing-quotient", (show_mat<T, M, N> (m)), Msg () << "std::invalid_argument: exact |cofactor/determinant| reaches " << qd, (show_mat<T, M, N> (C)));
+            }
         }
         if (!det_based && info.gj_provable && th == NONE)
             C0X_FAIL (f + "(true).no-throw-on-provable-zero-pivot", (show_mat<T, M, N> (m)), "std::invalid_argument (zero row / zero column / identical rows)", (show_mat<T, M, N> (C)));
@@ -173,7 +193,7 @@ template <class T, int N> struct InvChecker
     }
     template <int K = N> typename std::enable_if<(K < 3)>::type gj_family (const M&, const Info&, bool, ITally&) const {}
 
-    void check (const M& m, const Info& info, ITally& t) const
+    void check (const M& m, const Info& info, ITally& t, bool run_gj = true) const
     {
         ++t.states;
         bool far = false;
@@ -184,13 +204,19 @@ template <class T, int N> struct InvChecker
         if (aff) ++t.c_affine; else ++t.c_general;
         if (!info.exact) ++t.c_inexact;
         else if (info.singular) ++t.c_singular_exact;
-        else { ++t.c_nonsingular_exact; if (info.maxq >= TM / 4) ++t.c_guard_quotient_ge_quarter_max; }
+        else
+        {
+            ++t.c_nonsingular_exact;
+            if (info.maxq >= TM / 4) ++t.c_guard_quotient_ge_quarter_max;
+            if (!(N == 4 && !aff) && (info.maxq_div >= 0 ? info.maxq_div : info.maxq) >= HI) { ++t.c_must_fire; if (aff) ++t.c_must_fire_affine; }
+            if (info.maxq_div >= 0 && info.maxq < TM / 4) ++t.c_below_quarter_tiny_det;
+        }
         if (info.gj_provable) ++t.c_gj_provable;
         // Matrix44::inverse on a non-affine matrix is documented to fall back to Gauss-Jordan: no overflow guard there
         const bool det_based = !(N == 4 && !aff);
         family ("inverse", "invert", m, info, det_based, far, t, [] (const M& a) { return a.inverse (); }, [] (const M& a, bool e) { return a.inverse (e); },
                 [] (M& a) { a.invert (); }, [] (M& a, bool e) { a.invert (e); }, t.c_threw_det);
-        gj_family (m, info, far, t);
+        if (run_gj) gj_family (m, info, far, t);
     }
 };
 
@@ -415,6 +441,95 @@ template <class T, int N> bool run_guard (const std::vector<T>& G, const std::ve
     return ok;
 }
 
+// ---- overflow alphabet: M = diag(2^re) L diag(2^ce), non-zero determinant, quotients on both sides of max ----------
+// `aff`: L has the unit last column and only its (N-1)x(N-1) block is scaled (the affine fast path).  Families on the
+// n x n (block): fam < n: column fam scaled by 2^-b; fam < 2n: row fam-n; else row f/n by 2^-(b/2) and column f%n by
+// 2^-(b-b/2) (isolates one quotient).  Only the determinant-based family is run (Gauss-Jordan has no overflow guard).
+template <class T, int N> bool run_overflow (int lo, int hi, bool aff, const int* transl, const std::vector<int>& bs, ITally& total, uint64_t& count)
+{
+    typedef typename Mat<T, N>::type M;
+    InvChecker<T, N>                 ck;
+    const int                        n    = aff ? N - 1 : N;
+    const unsigned                   base = (unsigned) (hi - lo + 1);
+    const uint64_t                   nl   = ex::ipow (base, n * n);
+    const int                        nfam = 2 * n + n * n;
+    const int                        elo = c08::Lim<T>::emin_sub, ehi = std::numeric_limits<T>::max_exponent - 12;
+    std::mutex                       mu;
+    std::atomic<uint64_t>            cnt (0);
+    bool ok = parallel_chunks (nl, 64, [&] (uint64_t b0, uint64_t e0, unsigned) {
+        ITally   t;
+        uint64_t c = 0;
+        for (uint64_t idx = b0; idx < e0; ++idx)
+        {
+            int d[16], L[16];
+            ex::decode (idx, base, n * n, d, lo);
+            for (int i = 0; i < N; ++i)
+                for (int j = 0; j < N; ++j)
+                    L[i * N + j] = (i < n && j < n) ? d[i * n + j] : (j == N - 1 ? (i == N - 1 ? 1 : 0) : transl[j]);
+            ex::i128 a[16], adj[16];
+            for (int i = 0; i < N * N; ++i) a[i] = L[i];
+            const ex::i128 det = ex::det_exact (a, N);
+            if (det == 0) continue;
+            ex::adj_exact (a, N, adj);
+            const long double ad = (long double) (det < 0 ? -det : det);
+            for (int fam = 0; fam < nfam; ++fam)
+                for (int b : bs)
+                {
+                    int re[4] = {0, 0, 0, 0}, ce[4] = {0, 0, 0, 0};
+                    if (fam < n) ce[fam] = -b;
+                    else if (fam < 2 * n) re[fam - n] = -b;
+                    else { int f = fam - 2 * n; re[f / n] = -(b / 2); ce[f % n] = -(b - b / 2); }
+                    int Rs = 0, Cs = 0;
+                    for (int i = 0; i < N; ++i) { Rs += re[i]; Cs += ce[i]; }
+                    Info inf;
+                    inf.exact = Rs + Cs >= elo && Rs + Cs <= ehi;
+                    M m;
+                    for (int i = 0; i < N; ++i)
+                        for (int j = 0; j < N; ++j)
+                        {
+                            const int e = re[i] + ce[j], cf = Rs + Cs - re[j] - ce[i];
+                            if (e < elo || e > ehi || cf < elo || cf > ehi) inf.exact = false;
+                            m[i][j] = (T) std::ldexp ((double) L[i * N + j], e);
+                        }
+                    // the quotients the determinant-based path forms: all of them, or those of the block on the affine fast path
+                    // (a lattice matrix with a unit last column whose last row and column are not scaled takes it as well)
+                    const int   nb   = InvChecker<T, N>::affine (m) ? N - 1 : N;
+                    long double qall = 0, qdiv = 0;
+                    for (int i = 0; i < N; ++i)
+                        for (int j = 0; j < N; ++j)
+                        {
+                            ex::i128    v = adj[i * N + j] < 0 ? -adj[i * N + j] : adj[i * N + j];
+                            long double q = ldexpl ((long double) v / ad, -ce[i] - re[j]);
+                            if (q > qall) qall = q;
+                            if (i < nb && j < nb && q > qdiv) qdiv = q;
+                        }
+                    inf.singular = false;
+                    inf.maxq     = qall;
+                    inf.maxq_div = qdiv;
+                    ck.check (m, inf, t, false);
+                    ++c;
+                }
+        }
+        cnt += c;
+        std::lock_guard<std::mutex> g (mu);
+        total.add (t);
+    });
+    count = cnt.load ();
+    return ok;
+}
+
+void publish_overflow (const char* dim, const ITally& t, bool has_affine)
+{
+    R ().add ("states", t.states);
+    R ().add ("evaluations", t.states);
+    R ().add ("transitions", t.transitions);
+    std::string d = std::string ("inverse.") + dim + ".";
+    R ().cls (d + "nonzero-det.exact-quotient>=2^(emax+1)(must-report-singular)", t.c_must_fire);
+    if (has_affine) R ().cls (d + "nonzero-det.exact-quotient>=2^(emax+1).affine-fast-path", t.c_must_fire_affine);
+    R ().cls (d + "nonzero-det.tiny-determinant.all-exact-quotients<max/4(must-not-throw)", t.c_below_quarter_tiny_det);
+    R ().cls (d + "checked-inverse-threw", t.c_threw_det);
+}
+
 void publish (const char* dim, const ITally& t)
 {
     R ().add ("states", t.states);
@@ -469,6 +584,39 @@ template <class T> void stage_for_type (bool th)
                         " x scales + one-ulp perturbations = " + std::to_string (c + c2 + c3) + " matrices, 16 forms each";
         if (ok) R ().stage_done (w);
         else R ().stage_partial (w);
+    }
+    // ---------------- overflowing quotients with a non-zero determinant (must fire)
+    {
+        const int G = std::numeric_limits<T>::max_exponent - 2; // the library's threshold 1/min = 2^G
+        std::vector<int> bs;
+        if (th) for (int b = G - 6; b <= G + 8; ++b) bs.push_back (b);
+        else bs = {G - 6, G - 1, G, G + 1, G + 2, G + 3, G + 8};
+        static const int T0[4] = {0, 0, 0, 0}, T1[4] = {1, -1, 1, 0};
+        if (R ().stage ("inverse.overflow.2x2." + tn))
+        {
+            ITally t; uint64_t c = 0;
+            bool ok = run_overflow<T, 2> (-3, 3, false, T0, bs, t, c);
+            publish_overflow ("2x2", t, false);
+            std::string w = "every non-singular L(3) 2x2 x 8 scaling families x " + std::to_string (bs.size ()) + " exponents b around 2^" + std::to_string (G) + " = " + std::to_string (c) + " matrices, 4 determinant-based forms each";
+            if (ok) R ().stage_done (w); else R ().stage_partial (w);
+        }
+        if (R ().stage ("inverse.overflow.3x3." + tn))
+        {
+            ITally t; uint64_t c = 0, c2 = 0;
+            bool ok = run_overflow<T, 3> (-1, 1, false, T0, bs, t, c);
+            ok = run_overflow<T, 3> (-2, 2, true, T1, bs, t, c2) && ok;
+            publish_overflow ("3x3", t, true);
+            std::string w = "every non-singular {0,+-1} 3x3 x 15 families and every affine 3x3 (block L(2), translation (1,-1)) x 8 families x " + std::to_string (bs.size ()) + " exponents = " + std::to_string (c + c2) + " matrices";
+            if (ok) R ().stage_done (w); else R ().stage_partial (w);
+        }
+        if (R ().stage ("inverse.overflow.4x4." + tn))
+        {
+            ITally t; uint64_t c = 0;
+            bool ok = run_overflow<T, 4> (-1, 1, true, T1, bs, t, c);
+            publish_overflow ("4x4", t, true);
+            std::string w = "every affine 4x4 with a non-singular {0,+-1} 3x3 block, translation (1,-1,1) x 15 families x " + std::to_string (bs.size ()) + " exponents = " + std::to_string (c) + " matrices";
+            if (ok) R ().stage_done (w); else R ().stage_partial (w);
+        }
     }
     // ---------------- guard thresholds
     if (R ().stage ("inverse.guard.2x2." + tn))
